@@ -19,6 +19,14 @@ class C07(ProgProp):
 
 
     def gen(self, rng, tier, k):
+        if k % 16 == 11:
+            from .. import gen as g
+            # a synchronous call that needs a flush, then an override entered in the same step and
+            # held across suspensions while siblings (which must not see it) run
+            spec = g.motif_sync_then_ctx(rng, [["sv", 0, 7], ["sv", 1, 8], ["attr", 9]])
+            spec["svs"] = 2
+            # the sibling reads the scoped values at every step
+            return self.motif_case(rng, tier, spec)
         r0 = rng.random()
         if r0 < 0.25:
             from .. import gen as g
